@@ -43,6 +43,11 @@ def hexs(b):
     return binascii.hexlify(bytes(b)).decode("ascii")
 
 
+def ihex(n):
+    """Ints travel as signed hexadecimal text: decimal conversion of huge ints is refused by Python 3.11+."""
+    return ("-%x" % -n) if n < 0 else ("%x" % n)
+
+
 def fbits(x):
     return hexs(struct.pack(">d", x))
 
@@ -78,9 +83,9 @@ def canon(v, code_mode="full"):
         return ["S"]
     t = type(v)
     if PY2 and t is long_type:
-        return ["l", repr(v).rstrip("L")]
+        return ["l", ihex(v)]
     if isinstance(v, int_types):
-        return ["i", repr(int(v)).rstrip("L")]
+        return ["i", ihex(v)]
     if t is float:
         return ["f", fbits(v)]
     if t is complex:
@@ -675,9 +680,9 @@ def build_value(c):
     if k == "S":
         return StopIteration
     if k == "i":
-        return int(c[1])
+        return int(c[1], 16)
     if k == "l":
-        return long_type(c[1])
+        return long_type(c[1], 16)
     if k == "f":
         return struct.unpack(">d", binascii.unhexlify(c[1]))[0]
     if k == "c":
